@@ -111,6 +111,28 @@ def realloc (sched : Sched) (n : NodeInfo) (origin : WorkloadRes) (req : Req) :
 def rollbackRealloc (n : NodeInfo) (delta : WorkloadRes) : Except String NodeInfo :=
   setNodeResourceUsage n none [delta] true false
 
+/-! ### a commit in which another plugin fails
+
+`Manager.SetNodeResourceUsage` is itself a PCR: the commit calls every plugin's
+`SetNodeResourceUsage`; if some plugin fails, every plugin that succeeded is rolled back with
+`SetNodeResourceUsage(before, nil, nil, delta=false, incr=false)`, i.e. an absolute rewrite of
+its usage with the `Before` it reported (a deep copy of the usage it read). -/
+
+/-- the rollback call on the cpumem plugin: rewrite the usage with `before`; if the plugin
+    refuses (validation), the changed usage stays -/
+def rollbackUsage (before : NodeRes) (n' : NodeInfo) : NodeInfo :=
+  match setNodeResourceUsage n' (some before.deepCopy) [] false false with
+  | .ok n'' => n''
+  | .error _ => n'
+
+/-- Manager.SetNodeResourceUsage(workloads, delta, incr) over cpumem and further plugins;
+    `otherFails`: some other plugin fails in the commit.  Result: the cpumem node afterwards,
+    and the error if the call failed. -/
+def commitUsage (n : NodeInfo) (ws : List WorkloadRes) (incr otherFails : Bool) : NodeInfo × Option String :=
+  match setNodeResourceUsage n none ws true incr with
+  | .error e => (n, some e)
+  | .ok n' => if otherFails then (rollbackUsage n.usage n', some "other-plugin") else (n', none)
+
 /-! ### histories -/
 
 inductive Op where
@@ -120,6 +142,8 @@ inductive Op where
   | realloc (i : Nat) (req : Req)
   /-- undo the immediately preceding successful realloc -/
   | rollbackRealloc
+  /-- the same operation, but another plugin fails in its commit (cobalt rolls cpumem back) -/
+  | failing (op : Op)
   deriving Repr, Inhabited
 
 structure Undo where
@@ -165,6 +189,11 @@ def step (sched : Sched) (s : State) : Op → State × Bool
       match rollbackRealloc s.node u.delta with
       | .ok n' => ({ node := n', live := s.live.set u.idx u.origin }, true)
       | .error _ => ({ s with undo := none }, false)
+  | .failing op =>
+    -- cpumem's part is what the operation would do; if it got as far as storing a new usage,
+    -- the other plugin's failure makes cobalt roll it back; nothing else happens
+    let (s1, ok) := step sched s op
+    if ok then ({ s with node := rollbackUsage s.node.usage s1.node, undo := none }, false) else (s1, false)
 
 def run (sched : Sched) (s : State) (ops : List Op) : State :=
   ops.foldl (fun s op => (step sched s op).1) s
